@@ -143,7 +143,7 @@ func manifestError(node *yaml.Node, message string) validation.ValidationError {
 
 type Import struct {
 	Url     string
-	Package *PackageInfo
+	Package *PackageInfo `yaml:"-"`
 }
 type Imports []*Import
 
@@ -169,7 +169,7 @@ func (imports *Imports) UnmarshalYAML(value *yaml.Node) error {
 type Version struct {
 	Label   string
 	Url     string
-	Package *PackageInfo
+	Package *PackageInfo `yaml:"-"`
 }
 
 type Versions []*Version
